@@ -701,6 +701,46 @@ func simC05Histories(c *Ctx) {
 	if accepted > 0 {
 		c.NonTrivial()
 	}
+	// the helpers say what the long form says: RefineWith with the same calls, and RefineNotNull where not-null is all
+	// that was stated (for the type-unknown dynamic value: nothing at all)
+	if len(snaps) > 0 {
+		last := snaps[len(snaps)-1]
+		if len(last.lineage) >= 1 && !last.unsure {
+			var viaWith cty.Value
+			if pan := catch(func() {
+				viaWith = start.RefineWith(func(b *cty.RefinementBuilder) *cty.RefinementBuilder {
+					for _, k := range last.lineage {
+						b, _ = c05Apply(b, k)
+					}
+					return b
+				})
+			}); pan == nil {
+				c.API("Value.RefineWith")
+				observe(c, viaWith, "Value.RefineWith")
+				if !viaWith.RawEquals(last.v) {
+					c.Fail("C05", "range-depends-on-order", "helper-differs:RefineWith", "the constraints %v through Refine()...NewValue() give %s, through RefineWith they give %s", last.lineage, safeGoString(last.v), safeGoString(viaWith))
+				}
+			}
+			onlyNotNull := true
+			for _, k := range last.lineage {
+				onlyNotNull = onlyNotNull && k.op == opNotNull
+			}
+			if onlyNotNull {
+				var viaHelper cty.Value
+				if pan := catch(func() { viaHelper = start.RefineNotNull() }); pan == nil {
+					c.API("Value.RefineNotNull")
+					observe(c, viaHelper, "Value.RefineNotNull")
+					if !viaHelper.RawEquals(last.v) {
+						c.Fail("C05", "range-depends-on-order", "helper-differs:RefineNotNull", "Refine().NotNull().NewValue() gives %s, RefineNotNull() gives %s", safeGoString(last.v), safeGoString(viaHelper))
+					}
+					if m.dynamic && fp(viaHelper) != fp(start) {
+						c.Fail("C05", "dynamic-refined", "dynamic-refined:RefineNotNull", "RefineNotNull() of the type-unknown dynamic value returned %s", safeGoString(viaHelper))
+					}
+					c.Probe("c05.refine-not-null-helper")
+				}
+			}
+		}
+	}
 	// the reported range is what the stated constraints imply - not what the order of stating them implies: the
 	// constraints behind the last snapshot, stated again in a drawn order on a fresh builder, must all be accepted
 	// (a consistent set has no inconsistent subset) and must describe the same value
